@@ -182,6 +182,15 @@ def bounded(tier, seed):
         else:
             col.add(None if all(np.array_equal(firsts[0][k], firsts[1][k]) for k in firsts[0]) else
                     {"sig": "native::initial::rebuild", "what": "a second build() of the same builder starts from different values", "input": {"multiple_chains": multiple}})
+    # 5a. chain counts 1, 2 and 5: the configured jitter is applied whatever the number of chains
+    for nch in (1, 2, 5):
+        b = builder(s, chains=nch, jitter=jit)
+        e = b.build()
+        e.sample_next_epoch()
+        first = {k: np.asarray(v)[:, 0] for k, v in e.get_results().get_samples().items()}
+        ok = np.allclose(first["x"], np.tile(np.array([0.75, -0.25]), (nch, 1))) and np.all((first["y"] >= 2.0) & (first["y"] < 3.0)) and len(set(first["y"].tolist())) == nch
+        col.add(None if ok else {"sig": "native::initial::first_sample_chain_count", "what": f"{nch} chain(s): first recorded sample x={first['x'].tolist()}, y={first['y'].tolist()} is not the supplied initial value "
+                                 "(0.5, -0.5), 2.0 after the configured jitter (x + 0.25, y + U[0,1) per chain)", "input": {"num_chains": nch}})
     # 5b. jitter switched off again (None / empty mapping) or replaced on the same builder: "the configured jitter" is the last configuration
     for off in (None, {}):
         b = builder(s, jitter=jit)
@@ -216,7 +225,7 @@ def bounded(tier, seed):
         "evaluations": col.evals, "distinct_nontrivial": col.evals,
         "rule": ("BOUNDED: real EngineBuilder/Engine, 3 chains, two RW kernels on a Gaussian dict model, schedule INIT/FAST(4)/BURNIN(2)/POST(6, thinning 2): rerun equality, int seed vs "
                  "PRNGKey, uniqueness of the keys received by every kernel call - transition, start_epoch, end_epoch, tune, end_warmup - (key-logging kernel), chain 0 unchanged when other chains' initial values change and chains 1,2 unchanged when chain 0's does (NUTS/HMC with step-size search at initialisation), a tracked key derived inside extract_position (softmax over the value) recorded per chain from the first sample on, first "
-                 f"recorded sample = initial value + jitter for replicated and per-chain states over two consecutive build() calls; jitter functions switched off (None or an empty mapping) or replaced on the same builder. base seed {s}. Determinism of XLA is an assumption."),
+                 f"recorded sample = initial value + jitter for replicated and per-chain states over two consecutive build() calls, and for 1, 2 and 5 chains; jitter functions switched off (None or an empty mapping) or replaced on the same builder. base seed {s}. Determinism of XLA is an assumption."),
         "samples": [{"seed": s, "schedule": SCHED}],
         "exhaustive": False, "violations": col.violations,
     }
